@@ -409,8 +409,11 @@ func (w *treeW) newPhase() {
 	if w.phase >= 0 {
 		kind = []int{phFill, phDrain, phMix, phIter, phChurn, phTarget, phIter, phFill}[r.Choose(8, "phase")]
 	}
-	if r.Focus == "C02" && kind != phIter && r.Choose(3, "phase-iter") != 0 {
+	if r.Focus == "C02" && kind != phIter && w.m.n >= 8 && r.Choose(2, "phase-iter") != 0 {
 		kind = phIter
+	}
+	if kind == phIter && w.m.n < 8 && r.Choose(4, "phase-tiny") != 0 {
+		kind = phFill // iterating over a nearly empty tree is only occasionally interesting
 	}
 	w.phase = kind
 	n := w.m.n
@@ -1342,7 +1345,7 @@ func (w *treeW) iterNext(slot int) {
 			return
 		}
 		w.r.Probe("iter-exhausted-then-sticky")
-		if w.r.Choose(3, "drop") != 0 {
+		if w.r.Choose(4, "drop") != 3 {
 			w.iterDrop(slot)
 		}
 		return
@@ -1455,11 +1458,12 @@ func (w *treeW) iterPhaseStep() {
 		return
 	}
 	c := r.Choose(10, "iterstep")
+	slot := w.pickIter()
 	switch {
-	case c < 4:
-		w.iterNext(w.pickIter())
+	case c < 4 || w.iters[slot].done:
+		w.iterNext(slot)
 	case c < 9:
-		w.mutateNear(w.pickIter())
+		w.mutateNear(slot)
 	default:
 		w.sideOp()
 	}
